@@ -210,9 +210,12 @@ def ob_install_generators():
             be.generate_data_install(d); got = d.data; key = 'data'
         else:
             isub = sym_str(1 + choose(3, 'il'), 'installable_subdir', alphabet=DA)
-            idir = sym_str(1 + choose(2, 'dl'), 'dir', alphabet=DA)
+            tail = sym_str(1 + choose(2, 'dl'), 'dir', alphabet=DA)
+            named = choose(2, 'placeholder')            # install_dir: get_option('datadir') / ... gives a name with a placeholder that differs from the path
+            idir = ('share/' + tail) if named else tail
+            iname = ('{datadir}/' + tail) if named else tail
             strip = choose(2, 'strip_directory') == 1
-            sd = types.SimpleNamespace(from_source_dir=True, source_subdir='sub', installable_subdir=isub, install_dir=idir, install_dir_name=idir, strip_directory=strip,
+            sd = types.SimpleNamespace(from_source_dir=True, source_subdir='sub', installable_subdir=isub, install_dir=idir, install_dir_name=iname, strip_directory=strip,
                                        install_tag='t', install_mode=None, exclude=(set(), set()), subproject='', follow_symlinks=None)
             be.build = types.SimpleNamespace(get_install_subdirs=lambda: [sd])
             be.generate_subdir_install(d); got = d.install_subdirs; key = 'install_subdirs'
